@@ -93,7 +93,7 @@ def np_reference(case, x):
     if op in REDUCE or op in ARG:
         return getattr(np, op)(x, axis=axis, keepdims=kd)
     if op in SCAN:
-        return getattr(np, op)(x, axis=axis)
+        return getattr(np, op)(x, axis=axis, **({"dtype": case["dtype"]} if case.get("dtype") else {}))
     if op in TOPK:
         k = case["k"]
         ax = axis
@@ -128,7 +128,7 @@ def da_apply(case, d, se):
     if op in REDUCE or op in ARG:
         return getattr(da, op)(d, axis=axis, keepdims=kd, split_every=sev)
     if op in SCAN:
-        return getattr(da, op)(d, axis=axis, method=case.get("method", "sequential"))
+        return getattr(da, op)(d, axis=axis, method=case.get("method", "sequential"), **({"dtype": case["dtype"]} if case.get("dtype") else {}))
     if op in TOPK:
         return getattr(da, op)(d, case["k"], axis=axis, split_every=sev)
     if op in ("median", "nanmedian"):
@@ -298,6 +298,7 @@ def sig_of(case, x=None):
         sig["topk_partials_fit_k"] = topk_partials_fit_k(case)
     if case["op"] in SCAN:
         sig["method"] = case.get("method", "sequential")
+        sig["scan_dtype"] = case.get("dtype")
         # axis=None on a >= 2-d array: dask flattens (reshape + rechunk) first and scans the 1-d result
         sig["scan_flattens"] = case["axis"] is None and len(case["array"]["shape"]) >= 2
     if x is not None and case["op"] in ARG:
@@ -328,7 +329,7 @@ def check(case):
     axes = reduced_axes(case)
     sig = sig_of(case, x)
     what0 = f"{op}(x{arr['shape']} {arr['dtype']} chunks={arr['chunks']}, axis={case['axis']}, keepdims={case.get('keepdims', False)}" + "".join(
-        f", {k}={case[k]}" for k in ("ddof", "order", "k", "q", "method", "nan_plane") if k in case
+        f", {k}={case[k]}" for k in ("ddof", "order", "k", "q", "method", "dtype", "nan_plane") if k in case
     )
     if op in ("var", "std", "nanvar", "nanstd", "moment"):
         # N - ddof <= 0 is outside the property (NumPy clips the divisor and warns)
@@ -483,6 +484,10 @@ def enum_cases(tier):
                     for axis in axis_options(op, nd):
                         for method in ("sequential", "blelloch"):
                             yield {"array": arr, "op": op, "axis": axis, "method": method}
+                            # dtype= : every element is converted BEFORE it is accumulated (float data into an integer
+                            # accumulator truncates each term; int data into float32/float64)
+                            if op in ("cumsum", "cumprod") and axis is not None:
+                                yield {"array": arr, "op": op, "axis": axis, "method": method, "dtype": "i8" if arr["dtype"].startswith("f") else "f8"}
                 for op in TOPK:
                     if di == 1:
                         continue  # (NaN has no defined rank for topk: integer data set only)
